@@ -1,6 +1,6 @@
 (* C05 -- Protobuf encode/decode round trip and encoded_len agreement.
    Only statements, each closed by [exact] of a lemma proved in Proofs/, with Print Assumptions beneath. *)
-From PVPb Require Import Wire Codec Msg Proofs.VarintP Proofs.WireP Proofs.CastP Proofs.CodecP Proofs.MsgLenP Proofs.MsgRtP GroupMsg Proofs.GroupP.
+From PVPb Require Import Wire Codec Msg Proofs.VarintP Proofs.WireP Proofs.CastP Proofs.CodecP Proofs.MsgLenP Proofs.MsgRtP GroupMsg Proofs.GroupP Generated.PbFns FnAccounted Proofs.FnsP.
 Open Scope Z_scope.
 
 (* every u64, every decode path (fast path / unrolled slice path / byte-at-a-time slow path; which one
@@ -196,3 +196,10 @@ Proof. exact wrapper_negzero_refuted. Qed.
 Print Assumptions C05_wrapper_negzero_refuted.
 (* the `== default` premises of C05_msg_rt exercised by entries that ARE defaults: Proofs/MsgRtP.v msg_roundtrip_default_entries
    ({0: 0.0}, {7: 0.0}, {"": leaf} with key / value / both omitted on the wire). *)
+
+(* structural inventory: the regenerated list of every fn of pilota/src/prost/encoding.rs outside its test modules (module /
+   macro path and signature) is the accounted list the models were written against -- by computation; a new or changed
+   codec function breaks this obligation *)
+Theorem C05_encoding_fns : encoding_fns = accounted_encoding_fns.
+Proof. exact encoding_fns_accounted. Qed.
+Print Assumptions C05_encoding_fns.
